@@ -152,6 +152,9 @@ func c03Run(cfgc c03Cfg, seq []string, concurrent bool, longStall bool) (key, wh
 	// recovery
 	for _, fb := range fbs {
 		fb.SetMode("healthy")
+		if fb.Lost {
+			return "skip", "a backend port released for the refuse behaviour was taken by another process", outcome
+		}
 	}
 	time.Sleep(1500 * time.Millisecond)
 	var probes []string
@@ -266,6 +269,12 @@ func TestVerifC03W(t *testing.T) {
 				key, what, outcome := c03Run(j.cfg, j.seq, j.concurrent, j.long)
 				if key == "tool" {
 					t.Errorf("tool error: %s", what)
+					continue
+				}
+				if key == "skip" {
+					mu.Lock()
+					r.Note("skipped %v on %s: %s", j.seq, j.cfg, what)
+					mu.Unlock()
 					continue
 				}
 				if key != "" {
